@@ -291,8 +291,12 @@ def l1_case(sc: dict) -> str | None:
         body = expect[len(g0):len(expect) - len(g1)]
         held = streams.sink_data(s)
         if s.ncalls > f["index"]:
-            if got is not exc:
-                return "L1:fault:injected-error-" + ("swallowed" if got is None else f"replaced:{type(got).__name__}")
+            # the caller must learn that the message did not make it: the call may re-raise the
+            # stream's error or wrap it, but must not return normally or fail with something unrelated
+            if got is None:
+                return "L1:fault:injected-error-swallowed"
+            if not streams.same_or_chained(got, exc):
+                return f"L1:fault:injected-error-replaced-by-unrelated:{type(got).__name__}"
             if not body.startswith(held):
                 return "L1:fault:torn-message-is-not-a-prefix"
     return None
